@@ -45,7 +45,9 @@ Proof. exact print_import_print. Qed.
 Print Assumptions C18_print_import_print.
 
 (* the whole property under the side condition that the tensor classes are
-   those the importer derives from the names ([consistent]) *)
+   those the importer derives from the names ([consistent]: amplitudes by
+   name, Coulomb integrals and symbolic denominators SymmetricTensor, all
+   other names AntiSymmetricTensor - what the library itself builds) *)
 Theorem C18_import_print_reapply_roundtrip :
   forall cfg sym antisym e, wf_expr e = true -> consistent cfg sym antisym e = true ->
   exists e', import_model cfg false (print_model e) = Some e' /\
@@ -53,18 +55,34 @@ Theorem C18_import_print_reapply_roundtrip :
 Proof. exact import_print_reapply_roundtrip. Qed.
 Print Assumptions C18_import_print_reapply_roundtrip.
 
-(* without the side condition the kind clause is false: the symbolic
-   denominator D^{i}_{a} (SymmetricTensor, bra-ket antisymmetric) comes back
-   as AntiSymmetricTensor *)
-Theorem C18_import_kind_D_refuted :
-  wf_expr D_witness = true /\
+(* the kind clause for the symbolic denominator: for every configuration in
+   which its name is not an amplitude name, any index lists, sign and exponent,
+   the tensor use_symbolic_denominators builds (SymmetricTensor, bra-ket
+   antisymmetric) comes back as SymmetricTensor, the antisymmetry through
+   antisym_tensors, and prints to the same text *)
+Theorem C18_symbolic_denominator_roundtrip :
+  forall cfg sym neg up lo e,
+  is_adc_amplitude cfg (n_sym_orb_denom cfg) = false ->
+  is_t_amplitude cfg (n_sym_orb_denom cfg) = false ->
+  wf_tname (n_sym_orb_denom cfg) = true -> smem (n_sym_orb_denom cfg) sym = false ->
+  forallb wf_idx up = true -> forallb wf_idx lo = true ->
+  exists e', import_model cfg false (print_model [denom_term cfg neg up lo e]) = Some e' /\
+             reapply sym [n_sym_orb_denom cfg] e' = [denom_term cfg neg up lo e] /\
+             expr_kinds (reapply sym [n_sym_orb_denom cfg] e') = [(n_sym_orb_denom cfg, KSym, (-1)%Z)] /\
+             print_model e' = print_model [denom_term cfg neg up lo e].
+Proof. exact symbolic_denominator_roundtrip. Qed.
+Print Assumptions C18_symbolic_denominator_roundtrip.
+
+(* D^{i}_{a} under the default names: the input on which the kind clause
+   failed before the repair of import_tensor, now a positive instance *)
+Theorem C18_import_kind_D_restored :
+  wf_expr D_witness = true /\ consistent default_names [] [L "D"] D_witness = true /\
   exists e', import_model default_names false (print_model D_witness) = Some e' /\
-             print_model e' = print_model D_witness /\
-             expr_kinds (reapply [] [L "D"] e') = [(L "D", KAnti, (-1)%Z)] /\
-             expr_kinds D_witness = [(L "D", KSym, (-1)%Z)] /\
-             reapply [] [L "D"] e' <> D_witness.
-Proof. exact import_kind_D_refuted. Qed.
-Print Assumptions C18_import_kind_D_refuted.
+             reapply [] [L "D"] e' = D_witness /\
+             expr_kinds (reapply [] [L "D"] e') = [(L "D", KSym, (-1)%Z)] /\
+             print_model e' = print_model D_witness.
+Proof. exact import_kind_D_restored. Qed.
+Print Assumptions C18_import_kind_D_restored.
 
 (* the hypotheses are satisfiable on a non-trivial expression *)
 Example C18_hypotheses_satisfiable :
